@@ -1869,7 +1869,12 @@ unsigned int CppCheck::analyseWholeProgram(const std::string &buildDir, const st
     if (Settings::unusedFunctionOnly())
         return mLogger->exitcode();
 
-    executeAddonsWholeProgram(files, fileSettings, ctuInfo);
+    try {
+        executeAddonsWholeProgram(files, fileSettings, ctuInfo);
+    } catch (const std::runtime_error &e) {
+        // e.g. unexpected types in the addon output
+        internalError("", std::string("Whole program analysis failed: ") + e.what());
+    }
 
     std::list<Check::FileInfo*> fileInfoList;
     CTU::FileInfo ctuFileInfo;
